@@ -176,6 +176,13 @@ def apply_method():
         proof_cache.create_cache(data)
         print("Load: %f" % (time.perf_counter() - start_time))
 
+    # Other requests may have replaced the global theory and context since the cache was created
+    if data['thm_name'] != '':
+        limit = ('thm', data['thm_name'])
+    else:
+        limit = None
+    context.set_context(data['theory_name'], limit=limit, username=data['username'], vars=data['vars'])
+
     start_time = time.perf_counter()
     state = copy.copy(proof_cache.states[data['index']])
 
